@@ -29,7 +29,7 @@ def entry_env(prog, fn, head, models=None, args=None):
     env = {0: ("uninit",)}
     for i in range(fn.arg_count):
         env[i + 1] = (args[i] if args else P(fn.local_name(i + 1) or "arg%d" % (i + 1)))
-    tree = ev._run(fn, 0, env, {}, 0, until=head)
+    tree = ev._run(fn, 0, env, {}, 0, until=frozenset([head]))
     ls = sym._leaves(tree, [])
     joins = [x for x in ls if isinstance(x, tuple) and x and x[0] == "@join"]
     envs = [ev._joins[j[1]][0] for j in joins]
